@@ -183,6 +183,7 @@ class CopyDriver:
         self.c = StreamDataConsumer(protocol)
         self.max_recv = max_recv
         self.progress_failures: list[str] = []
+        self.pending = 0
 
     def max_feed(self) -> int:
         return self.max_recv
@@ -194,8 +195,9 @@ class CopyDriver:
         outs: list[tuple] = []
         arg: bytes | None = bytes(chunk)
         guard = 0
+        self.pending += len(chunk)  # bytes received and not yet turned into a packet / an error
         while True:
-            before = self.held() + (len(arg) if arg else 0)
+            before = self.pending
             try:
                 p = self.c.next(arg)
             except StopIteration:
@@ -203,12 +205,14 @@ class CopyDriver:
             except StreamProtocolParseError as exc:
                 outs.append(_err_obs(exc))
                 rem = len(bytes(exc.remaining_data))
+                self.pending = rem
                 if rem >= before:
                     self.progress_failures.append(f"parse error consumed no byte (held {before}, remaining {rem})")
                     outs.append(("X", "NoProgress"))
                     break
             else:
                 outs.append(("P", repr(p)))
+                self.pending = self.held()
             arg = None
             guard += 1
             if guard > 10000:
@@ -236,6 +240,7 @@ class BufDriver:
         self.c = BufferedStreamDataConsumer(protocol, hint)
         self.hint = hint
         self.progress_failures: list[str] = []
+        self.pending = 0
         self.max_buffer_size = 0
 
     def max_feed(self) -> int:
@@ -258,8 +263,9 @@ class BufDriver:
         self.max_buffer_size = max(self.max_buffer_size, self.c.buffer_size)
         arg: int | None = n
         guard = 0
+        self.pending += n
         while True:
-            before = self._held_before(arg)
+            before = self.pending
             try:
                 p = self.c.next(arg)
             except StopIteration:
@@ -267,12 +273,14 @@ class BufDriver:
             except StreamProtocolParseError as exc:
                 outs.append(_err_obs(exc))
                 rem = len(bytes(exc.remaining_data))
+                self.pending = rem
                 if rem >= before:
                     self.progress_failures.append(f"parse error consumed no byte (held {before}, remaining {rem})")
                     outs.append(("X", "NoProgress"))
                     break
             else:
                 outs.append(("P", repr(p)))
+                self.pending = self.c._BufferedStreamDataConsumer__already_written
             arg = None
             guard += 1
             if guard > 10000:
